@@ -368,3 +368,7 @@ rn('setstate-incoming', RM, "    def __setstate__(self, state):", "    def _run_
 rn('get_result-none', PR, "    def _start(self):", "    def _run(self):", 'ready', 'rdy')
 rn('active_children-cpy', W, "    def active_children():", "    def register_child(child):", 'cpy', 'snapshot')
 rn('autoclose-child', W, "def autoclose_active_children", "ZZZ-END", 'child', 'wrk')
+
+
+ALL_FILES = [T, PR, RM, W, U, PT, PP, PRM, PE, PO, RS, RC, RP, PK, ST]
+ok('reformat-every-module-with-ast-unparse', [(f, ('unparse',), None) for f in ALL_FILES])
